@@ -122,10 +122,20 @@ class IgnoreDirectiveParser:
 
 
 def _load_repo_ignores(project_root: Path) -> list[str]:
-    """Load global ignore patterns from .thailintignore or .thailint.yaml."""
+    """Load global ignore patterns: those of .thailintignore and those of the project configuration."""
+    return load_ignore_file_patterns(project_root) + _load_config_ignores(project_root)
+
+
+def load_ignore_file_patterns(project_root: Path) -> list[str]:
+    """Patterns of the project's .thailintignore file (empty when there is none)."""
     thailintignore = project_root / ".thailintignore"
     if thailintignore.exists():
         return _parse_thailintignore_file(thailintignore)
+    return []
+
+
+def _load_config_ignores(project_root: Path) -> list[str]:
+    """Top-level ignore list of the project configuration (first configuration file in discovery order)."""
     config_file = project_root / ".thailint.yaml"
     if config_file.exists():
         return _parse_config_file(config_file)
